@@ -242,11 +242,11 @@ def main(argv=None):
     print(f"{prop} [{a.tier}] {prop_title(prop)}")
     print(f"  obligations={n_obl} discharged={discharged} twins={twins_ok}/{twins} paths={evaluations} "
           f"queries={ev['coverage']['queries_discharged']} solver_s={ev['coverage']['solver_s']} wall_s={ev['wall_s']}")
-    for line in known_lines:
+    seen_what = {k["what"] for k in known if any(k["what"] in l for l in known_lines)}
+    for w in sorted({k["what"] for k in known} - seen_what):
+        print(f"note: listed finding not reproduced in this tier: property={prop} {w}")
+    for line in sorted(set(known_lines)):
         print(line)
-    for k in known:
-        if not any(k["signature"] in l and k["what"] in l for l in known_lines):
-            print(f"note: listed finding not reproduced in this tier: property={prop} {k['what']}")
     for i in inconclusive:
         print(f"INCONCLUSIVE property={prop} {i}")
     for name, c, path in violations:
